@@ -168,17 +168,22 @@ variable {w : Nat} (ok : ParamsOK (primPoly w) (2 ^ w)) (hw : 2 ≤ w)
 include ok hw
 
 /-- `exp[i] = x^i` for `i < 2^w - 1` -/
-theorem make_exp (i : Nat) (hi : i < 2 ^ w - 1) :
-    (GF.make w).exp.getD i 0 = pw (primPoly w) (2 ^ w) i := by
+theorem make_exp_get (i : Nat) (hi : i < 2 ^ w - 1) :
+    (GF.make w).exp[i]? = some (pw (primPoly w) (2 ^ w) i) := by
   unfold GF.make
   simp only
   rw [foldl_push_iter (fun x => gfMul w x 2) 1]
-  simp only [Array.getD_eq_getD_getElem?, List.getElem?_toArray, List.getElem?_map,
-    List.getElem?_range hi, Option.map_some, Option.getD_some]
+  simp only [List.getElem?_toArray, List.getElem?_map, List.getElem?_range hi, Option.map_some]
   unfold pw
   rw [log2_size]
+  congr 1
   exact iter_congr (2 ^ w) _ _ (fun x hx => gfMul_two ok hw x hx) (fun x hx => xt_lt' ok x hx) i 1
     (one_lt_size ok)
+
+theorem make_exp (i : Nat) (hi : i < 2 ^ w - 1) (d : Nat) :
+    (GF.make w).exp.getD i d = pw (primPoly w) (2 ^ w) i := by
+  rw [Array.getD_eq_getD_getElem?, make_exp_get ok hw i hi]
+  rfl
 
 /-- `log[x^j] = j` for `j < 2^w - 1` -/
 theorem make_log (j : Nat) (hj : j < 2 ^ w - 1) :
@@ -187,12 +192,12 @@ theorem make_log (j : Nat) (hj : j < 2 ^ w - 1) :
     (by simp) (2 ^ w - 1)
     (fun i hi => by
       show (GF.make w).exp.getD i 0 < 2 ^ w
-      rw [make_exp ok hw i hi]; exact pw_lt ok i)
+      rw [make_exp ok hw i hi 0]; exact pw_lt ok i)
     (fun i j hij hj => by
       show (GF.make w).exp.getD i 0 ≠ (GF.make w).exp.getD j 0
-      rw [make_exp ok hw i (by omega), make_exp ok hw j hj]; exact pw_inj ok i j hij hj)
+      rw [make_exp ok hw i (by omega) 0, make_exp ok hw j hj 0]; exact pw_inj ok i j hij hj)
     j hj
-  simp only [make_exp ok hw j hj] at key
+  simp only [make_exp ok hw j hj 0] at key
   rw [Array.getD_eq_getD_getElem?]
   show ((List.range (2 ^ w - 1)).foldl (fun (l : Array Nat) i => l.setIfInBounds ((GF.make w).exp.getD i 0) i)
     (Array.replicate (2 ^ w) 0))[pw (primPoly w) (2 ^ w) j]?.getD 0 = j
@@ -215,7 +220,7 @@ theorem make_mul (a b : Nat) (ha : a < 2 ^ w) (hb : b < 2 ^ w) :
     obtain ⟨j, hj, rfl⟩ := pw_surj ok b hb0 hb
     have hwf : (GF.make w).w = w := rfl
     have hs : 0 < 2 ^ w - 1 := by omega
-    rw [make_log ok hw i hi, make_log ok hw j hj, hwf, make_exp ok hw _ (Nat.mod_lt _ hs), pw_mod ok,
+    rw [make_log ok hw i hi, make_log ok hw j hj, hwf, make_exp ok hw _ (Nat.mod_lt _ hs) 0, pw_mod ok,
       gmul_pw_pw ok]
 
 end tables
